@@ -48,6 +48,9 @@ def oracle(c, tt):
     if tt[0] != 0.0:
         return f"first target time {tt[0]!r} != 0"
     if tt[-1] != D:
+        if D < tt[-1] <= D * (1 + 1e-9):
+            return ("ABOVE", f"last target time {tt[-1]!r} is above the duration {D!r} (i*dt/duration*duration rounds past "
+                    "the duration and the merge keeps the later point)")
         return f"last target time {tt[-1]!r} != duration {D!r}"
     for a, b in zip(tt, tt[1:]):
         if not a < b:
@@ -88,11 +91,12 @@ def oracle(c, tt):
 
 
 KNIFE = "timegrid-merge-threshold-equals-pulser-tolerance"
+ABOVE = "timegrid-last-point-above-duration"
 
 
 def _fail(rep, msg, c):
     if isinstance(msg, tuple):
-        rep.fail(msg[1], _ser(c), klass=KNIFE)
+        rep.fail(msg[1], _ser(c), klass=(KNIFE if msg[0] == "KNIFE" else ABOVE))
     else:
         rep.fail(msg, _ser(c), klass=None)
 
@@ -119,6 +123,8 @@ def fixed_cases():
                         obs=[[(Fr(0), 0.0), (Fr(1, 3), 1 / 3), (Fr(1), 1.0)], None]))
     x = 240 / 888 + 1e-12     # D7d: sat exactly on the former merge threshold 1e-12 (= pulser's TIME_TOLERANCE)
     out.append(dict(D=888, dtq=Fr(10), dt=10.0, dflt=[(Fr(1), 1.0)], obs=[[(Fr(x), x)]]))
+    for D, dt in [(187, "1.1"), (726, "1.1"), (363, "3.3")]:   # D7f: last point one ulp above the duration
+        out.append(dict(D=D, dtq=Fr(dt), dt=float(Fr(dt)), dflt=[(Fr(1), 1.0)], obs=[None]))
     for D, dt in [(10, "10"), (10, "11"), (10, "25"), (1, "0.1"), (1, "3"), (10000, "10"), (4000, "0.5")]:
         out.append(dict(D=D, dtq=Fr(dt), dt=float(Fr(dt)), dflt=[(Fr(0), 0.0), (Fr(1, 2), 0.5), (Fr(1), 1.0)],
                         obs=[None, [(Fr(1, 2) - Fr(5, 10**10), 0.5 - 5e-10)]]))
@@ -128,9 +134,9 @@ def fixed_cases():
 # ------------------------------------------------------------------ pieces
 def grid_correspondence(rep, rng, n, tier):
     cases = fixed_cases()
-    big = 2 if tier == "quick" else 20
+    big = 2 if tier == "quick" else 6
     for i in range(n):
-        cases.append(T.gen_case(rng, max_points=(40000 if i < big else (1500 if tier == "quick" else 6000))))
+        cases.append(T.gen_case(rng, max_points=(40000 if i < big else (1500 if tier == "quick" else 3000))))
     lines, expect, meta = [], [], []
     qlines, qmeta = [], []
     for c in cases:
@@ -246,6 +252,32 @@ def merge_level(rep, rng, n):
     return lines, expect
 
 
+def sweep_oracle(rep, rng, count):
+    """The sweep that found D7 and D7f: the oracle alone on a window of consecutive durations × the dt table."""
+    from emu_base.pulser_adapter import _get_target_times
+    c0 = dict(D=1, dtq=Fr(1), dt=1.0, dflt=[(Fr(1), 1.0)], obs=[None])
+    cfg = T.make_config(c0, "sv", T.make_observables(c0))
+    start = rng.randint(1, 10001 - count)
+    n = 0
+    for D in range(start, start + count):
+        for dts in T.DT_TABLE:
+            c = dict(D=D, dtq=Fr(dts), dt=float(Fr(dts)), dflt=[(Fr(1), 1.0)], obs=[None])
+            if D / c["dt"] > 12000:
+                continue
+            try:
+                tt = _get_target_times(T.Seq(D), cfg, c["dt"])
+            except Exception as e:
+                rep.fail(f"_get_target_times raised {type(e).__name__}: {e}", _ser(c))
+                continue
+            n += 1
+            msg = oracle(c, tt)
+            if msg:
+                _fail(rep, msg, c)
+    rep.extra["sweep_window"] = [start, start + count - 1]
+    rep.extra["sweep_cases"] = n
+    rep.evaluations += n
+
+
 def rows_and_reps(rep, rng, n):
     """rows of Ω from the real `_extract_omega_delta_phi` and the `reps` loop of the real
     `get_sequences` (mock samples), against `midpoints` / `expandReps`."""
@@ -313,9 +345,10 @@ def check(rep: Report, tier: str, seed: int) -> None:
     T.compat.install()
     lean_stage(rep, PROP_MODULE, AUDIT, thorough=(tier == "thorough"))
     rng = seeded(seed * 7919 + 21)
-    l0, finish0 = grid_correspondence(rep, rng, 260 if tier == "quick" else 6000, tier)
-    l1, e1 = merge_level(rep, rng, 400 if tier == "quick" else 20000)
-    l2, e2, what = rows_and_reps(rep, rng, 60 if tier == "quick" else 1500)
+    l0, finish0 = grid_correspondence(rep, rng, 260 if tier == "quick" else 2500, tier)
+    l1, e1 = merge_level(rep, rng, 400 if tier == "quick" else 8000)
+    l2, e2, what = rows_and_reps(rep, rng, 60 if tier == "quick" else 800)
+    sweep_oracle(rep, rng, 120 if tier == "quick" else 2500)
     try:
         out = Driver().batch(l0 + l1 + l2)
     except LeanError as e:
